@@ -28,7 +28,7 @@ T = {
             COMMON + SC, "Lean 4 proof (protocol model) + deterministic-scheduler history checking"),
     "C05": ("Lean theorems on the sequential model: an insert bumps the counters of its landing leaf; a get miss reports exactly that leaf with its current counters; (scan_nodes_cover as far as installed — see evidence). Counterexample for the unrepaired scan (D2). Tied to the code by differential comparison of every collected (version,node) list and by a direct phantom oracle: after a read, absent keys of the covered interval are inserted into the real tree and at least one collected pair must become stale.",
             COMMON, "Lean 4 proof + differential correspondence + direct phantom oracle (seqdrv)"),
-    "C06": ("Lean theorems on the NodeSet chain model (leaf chain with fences, inserts, splits, any interleaving): a completed insert into the scanned interval is in the scan's result or makes a collected (version,node) pair stale; counters are monotone so staleness is permanent; a scan whose pairs are all unchanged has read exactly the keys present. The scanner of the model is on the safe side of the code in three stated ways. Tied to the code by scheduler-driven runs: node sets are re-validated after all operations completed and compared with the fresh inserts of the interval.",
+    "C06": ("Lean theorems on the NodeSet chain model (leaf chain with fences, inserts, splits, any interleaving): a completed insert into the scanned interval is in the scan's result or makes a collected (version,node) pair stale; counters are monotone so staleness is permanent; a scan whose pairs are all unchanged has read exactly the keys present. The scanner of the model is on the safe side of the code in three stated ways. Tied to the code by scheduler-driven runs: node sets are re-validated after all operations completed and compared with the fresh inserts of the interval; the NodeSet model itself is tied to the code by outcome-set inclusion (the model enumerates all interleavings of small scan-vs-insert scenarios incl. splits; every key list the real scan returns must be one the model produces).",
             COMMON + SC, "Lean 4 proof (protocol model) + deterministic-scheduler node-set re-validation"),
     "C07": ("Lean theorem on the epoch protocol model (sessions, two-step enter with the repaired re-check, non-atomic scans of the epoch thread, gc epoch, per-slot queues with cache): no object is freed while a session that was active at its unlink is still active; counterexample theorem for the unrepaired enter (D3). Tied to the code by scheduler-driven runs with the library's epoch and gc threads scheduled and threads stalled across epoch advances: ASan on pointers held until leave, content re-read, a reclamation-order check on the event trace and the Lean monitor `yakmodel epoch` (retired values and retired nodes).",
             COMMON + SC + "TBB concurrent_queue is modelled as a FIFO; the relaxed store of begin_epoch_ is treated as sequentially consistent.",
